@@ -1,4 +1,118 @@
-(* C16 -- placeholder while the Peg family is being built *)
-From MS Require Import Peg.Syntax Gen.Grammar.
-Example C16_grammar_nonempty : length g <> 0%nat.
-Proof. vm_compute. discriminate. Qed.
+(* C16 -- the compiler is total: any input yields success or diagnostics, never a crash.
+
+   FULL STATEMENT (properties.jsonl): for every input text, `compile` terminates promptly and either
+   succeeds or prints diagnostics and exits with a failure status; never a panic, abort, stack overflow
+   or hang.
+
+   WHAT IS PROVED HERE (hence the suffix _partial): the PARSER layer only.
+     * peg_terminates: for EVERY pest grammar that passes the boolean check `wf` (no left recursion, also
+       through nullable prefixes and the implicit WHITESPACE/COMMENT skipping; no repetition of a nullable
+       expression; all rule references defined), for every start rule and EVERY input, the interpreter
+       `parse_rule` (pest's semantics: Peg/Desugar.v + Peg/Interp.v) returns a result different from
+       OutOfFuel whenever the recursion-depth fuel is at least  fuel_bound g |input| = (|input|+1)*(R+1)*(M+1);
+       and the result is the same for every larger fuel.
+     * grammar_wf: `wf` holds, by computation, of Gen/Grammar.v, which gen/pest2coq.py regenerates from
+       compiler/src/grammar.pest on every run.
+     * promptness is REFUTED for the parser model (known finding, DESIGN F10): the step counter of the
+       model doubles with every nesting level of `x: [[..[int...]..]] = 1` and of an unclosed `x = [[[[..`
+       (computed for k = 1..12; the real binary needs > 10 s at about 21 levels).
+   MISSING: everything behind the parser (AST builders, type checker, code generator; several hundred
+   unwrap-like sites) is not modelled; vlib/c16.py SEARCHES it (exit status of the real compiler on
+   generated and mutated inputs).  Native stack exhaustion is outside the model (fuel is not a stack). *)
+From MS Require Import Peg.Syntax Peg.Desugar Peg.Interp Peg.Wf Peg.WfCompute Gen.Grammar.
+
+Check peg_terminates : forall g, wf g = true ->
+  forall i input fuel, (i < length g)%nat -> (fuel_bound g (length input) <= fuel)%nat ->
+  parse_rule g fuel i input <> OutOfFuel.
+Theorem C16_parser_terminates_partial : forall g, wf g = true ->
+  forall i input fuel, (i < length g)%nat -> (fuel_bound g (length input) <= fuel)%nat ->
+  parse_rule g fuel i input <> OutOfFuel.
+Proof. exact peg_terminates. Qed.
+Print Assumptions C16_parser_terminates_partial.
+
+Check peg_result_stable : forall g, wf g = true -> forall i input fuel, (i < length g)%nat ->
+  (fuel_bound g (length input) <= fuel)%nat ->
+  parse_rule g fuel i input = parse_rule g (fuel_bound g (length input)) i input.
+Theorem C16_parser_result_stable_partial : forall g, wf g = true -> forall i input fuel, (i < length g)%nat ->
+  (fuel_bound g (length input) <= fuel)%nat ->
+  parse_rule g fuel i input = parse_rule g (fuel_bound g (length input)) i input.
+Proof. exact peg_result_stable. Qed.
+Print Assumptions C16_parser_result_stable_partial.
+
+(* the grammar the compiler is built from today is well-formed *)
+Example C16_grammar_wf : wf Grammar.g = true.
+Proof. vm_compute. reflexivity. Qed.
+
+(* hence: the mscript parser (start rule `file`) terminates on every input, within an explicit depth *)
+Theorem C16_mscript_parser_terminates_partial : forall input,
+  parse_rule Grammar.g (fuel_bound Grammar.g (length input)) r_file input <> OutOfFuel.
+Proof.
+  intros input. apply peg_terminates.
+  - exact C16_grammar_wf.
+  - vm_compute. apply PeanoNat.Nat.leb_le. reflexivity.
+  - apply le_n.
+Qed.
+Print Assumptions C16_mscript_parser_terminates_partial.
+
+(* the constants of the bound for today's grammar: 3 * #rules core rules, M, R, K = (R+1)*(M+1) *)
+Example C16_bound_constants :
+  (let '(cg, nl, rk) := tables Grammar.g in Nat.eqb (length cg) (3 * length Grammar.g) && Nat.ltb 0 (Kx cg rk)) = true.
+Proof. vm_compute. reflexivity. Qed.
+
+(* ---- the check is not vacuous: it rejects what pest would loop on, and the model then runs out of fuel ---- *)
+Definition g_leftrec : grammar :=      (* a = { a ~ "x" | "x" } *)
+  [ {| rname := [97]; rmod := MNormal; rbody := PChoice (PSeq (PCall 0) (PStr [120])) (PStr [120]) |} ].
+Example C16_leftrec_rejected : wf g_leftrec = false /\ parse_rule g_leftrec 5000 0 [120; 120] = OutOfFuel.
+Proof. vm_compute. split; reflexivity. Qed.
+
+Definition g_hidden_leftrec : grammar :=      (* a = { "y"? ~ b }   b = { !"z" ~ a ~ "x" | "x" } *)
+  [ {| rname := [97]; rmod := MAtomic; rbody := PSeq (POpt (PStr [121])) (PCall 1) |};
+    {| rname := [98]; rmod := MNormal; rbody := PChoice (PSeq (PNeg (PStr [122])) (PSeq (PCall 0) (PStr [120]))) (PStr [120]) |} ].
+Example C16_hidden_leftrec_rejected : wf g_hidden_leftrec = false /\ parse_rule g_hidden_leftrec 5000 0 [120] = OutOfFuel.
+Proof. vm_compute. split; reflexivity. Qed.
+
+Definition g_nullstar : grammar :=     (* a = { ("x"?)* } *)
+  [ {| rname := [97]; rmod := MNormal; rbody := PStar (POpt (PStr [120])) |} ].
+Example C16_nullable_star_rejected : wf g_nullstar = false /\ parse_rule g_nullstar 5000 0 [121] = OutOfFuel.
+Proof. vm_compute. split; reflexivity. Qed.
+
+Definition g_ws_nullable : grammar :=  (* WHITESPACE = _{ " "* }   a = { "x" ~ "y" } : the implicit skip loops *)
+  [ {| rname := n_WHITESPACE; rmod := MSilent; rbody := PStar (PStr [32]) |};
+    {| rname := [97]; rmod := MNormal; rbody := PSeq (PStr [120]) (PStr [121]) |} ].
+Example C16_nullable_whitespace_rejected : wf g_ws_nullable = false /\ parse_rule g_ws_nullable 5000 1 [120; 121] = OutOfFuel.
+Proof. vm_compute. split; reflexivity. Qed.
+
+Example C16_undefined_rule_rejected :
+  wf [ {| rname := [97]; rmod := MNormal; rbody := PCall 7 |} ] = false.
+Proof. vm_compute. reflexivity. Qed.
+
+(* ---- the model really parses: `print 1\n` from rule `file` ---- *)
+Definition src_print1 : list N := [112; 114; 105; 110; 116; 32; 49; 10].
+Example C16_parses_print :
+  match parse_rule Grammar.g 2000 r_file src_print1 with
+  | Ok s ts _ => is_nil (rest s) && Nat.eqb (length (flatten_all ts)) 8
+  | _ => false
+  end = true.
+Proof. vm_compute. reflexivity. Qed.
+
+(* ---- promptness: REFUTED in the parser model (known finding "exponential-nested-list-type") ---- *)
+Definition nested_list_type (k : nat) : list N :=       (* x: [[..[int...]..]] = 1\n *)
+  [120; 58; 32] ++ repeat 91 k ++ [105; 110; 116; 46; 46; 46] ++ repeat 93 k ++ [32; 61; 32; 49; 10].
+Definition unclosed_list (k : nat) : list N :=          (* x = [[[[.. *)
+  [120; 32; 61; 32] ++ repeat 91 k.
+Definition steps (input : list N) : N :=
+  match steps_of (parse_rule Grammar.g 4000 r_file input) with Some n => n | None => 0 end.
+Definition ks : list nat := seq 1 11.
+
+(* steps(k+2) - steps(k+1) = 2 * (steps(k+1) - steps(k))  and  steps(k) >= 2^k,  k = 1 .. 11/12 *)
+Example C16_nested_list_type_steps_double_refuted :
+  forallb (fun k => let a := steps (nested_list_type k) in let b := steps (nested_list_type (S k)) in
+                    let c := steps (nested_list_type (S (S k))) in
+                    (0 <? a) && (a <? b) && (c - b =? 2 * (b - a)) && (2 ^ N.of_nat (S (S k)) <=? c)) ks = true.
+Proof. vm_compute. reflexivity. Qed.
+
+Example C16_unclosed_list_steps_double_refuted :
+  forallb (fun k => let a := steps (unclosed_list k) in let b := steps (unclosed_list (S k)) in
+                    let c := steps (unclosed_list (S (S k))) in
+                    (0 <? a) && (a <? b) && (c - b =? 2 * (b - a)) && (2 ^ N.of_nat (S (S k)) <=? c)) ks = true.
+Proof. vm_compute. reflexivity. Qed.
